@@ -5,6 +5,7 @@ from .common import layout
 
 ID = "C18"
 LEVEL = "exploration"
+HISTORY = True  # every second shard first runs a prelude of earlier library use (history.py)
 EXHAUSTIVE = True
 RULE = (
     "exhaustive: all 3072 values of the low 12 bits with bit 7 or bit 8 set, plus zero, each also with the reserved high bits "
